@@ -15,7 +15,7 @@ import operator
 
 import numpy as np
 
-from symx.core import DomainExit, SymBool, SymReal
+from symx.core import DomainExit, SymBool, SymReal, obj0
 from symx.shims import HarnessError
 
 from .common import as_ufunc_global
@@ -29,7 +29,9 @@ MANIFEST = dict(
     text=("Bounded symbolic execution of the real dispatch code (symx): every binary key of unyt's ufunc table in its call / out= / "
           "outer / at / reduce(initial=) / operator / in-place forms, every value-merging NumPy handler, __setitem__, .to()/in_units and "
           "Unit +/- are run on operands whose elements, unit scales and offsets are z3 reals; an independent oracle table says which "
-          "operations need commensurable operands; per path z3 decides 'returned normally => commensurable or documented exception "
+          "operations need commensurable operands; sequence operands (lists / tuples of quantities, also with bare numbers before or "
+          "behind the quantities, 0-d array members, three members, one level of nesting) are an operand-kind axis of every family, "
+          "and unyt_array(sequence) is run as a merging call; per path z3 decides 'returned normally => commensurable or documented exception "
           "(==/!= constant answer; bare operand all zero on this path; ordering comparison with a dimensionless operand)' and 'raised "
           "=> every operand term and unit unchanged'. Discrete axes (operation, form, operand kind, dimension pair, shape <= (2,2)) "
           "are enumerated; any model is replayed on plain unyt."),
@@ -46,7 +48,10 @@ EXPLANATION = (
     "ordering comparison has a dimensionless operand); if it raised, z3 proves every operand's element terms and unit fields are "
     "what they were before the call. The zero exemption and unyt's 1e-9 same-unit band are path splits made by the real code "
     "(np.count_nonzero, math.isclose) on symbols, so 'the bare operand is zero' and 'two different dimensions whose scales happen "
-    "to agree' are solver cases, not samples."
+    "to agree' are solver cases, not samples. A python sequence operand is described to the oracle member by member (bare number / "
+    "quantity of dimension D0 / D1): where bare values are read in the receiving array's unit (assignment-like calls) only the members "
+    "that carry units are compared, elsewhere a bare member counts as dimensionless; after a raise the sequence must still hold the "
+    "same member objects and every member quantity its element term and unit."
 )
 BOUNDS = {
     "quick": "18 commensurability-requiring binary keys of _ufunc_registry x forms {call, operator, out=quantity, out=ndarray, outer, at, "
@@ -63,12 +68,22 @@ BOUNDS = {
              "shapes (concatenate x2, stack, vstack, hstack, dstack, column_stack, block, append, where, choose, select x2, linspace, "
              "geomspace, intersect1d, union1d, setdiff1d, isin, interp, searchsorted, clip x2, insert, place, put, putmask, put_along_axis, "
              "fill_diagonal, copyto x2) x 6 kinds of first operand x 11 kinds of second; __setitem__ (5 index forms) and the "
-             "fill/put/searchsorted methods x 11 value kinds; to/in_units/to_value/convert_to_units with string and Unit targets and "
+             "fill/put/searchsorted methods x 11 value kinds; SEQUENCE kinds beyond the three core lists (same / other / mixed unit): "
+             "[bare, q] and [q, bare], tuples (same / other / mixed / bare first / bare last), members that are 0-d unyt_array objects, "
+             "three members with the foreign quantity first / in the middle / last and with one or two bare numbers in front, one level "
+             "of nesting ([[q, q]], [(q, q)], [[bare, q]]) - 23 kinds - as the value of __setitem__ (15 index forms: item, slice, "
+             "ellipsis, boolean mask, integer list / array, partial slice / fancy / mask of a 3-array, row and broadcast row of a "
+             "(2,2) array) into a same-dimension / other-dimension / dimensionless / scaled-dimensionless target, as second operand "
+             "of every array-function call shape that accepts the shape, as right operand of 9 ufunc keys (all forms; the kinds unyt's "
+             "coercion accepts: add / less / equal in call and operator form), and as the argument of unyt_array(seq) / "
+             "unyt_array(seq, registry=); to/in_units/to_value/convert_to_units with string and Unit targets and "
              "Unit +,-,+=,-= over every ordered dimension pair; .to() family also onto same-spelling Unit objects of other registries",
     "thorough": "as quick with all 11 kinds on both sides, every distinct dimension of the registry pairwise (51: 2601 ordered pairs), and "
                 "the shape pairs ((2,),(2,)) in all forms (outer only for the keys whose loops do not branch) and ((),(2,)) in all forms, ((2,2),(2,)) call/operator/in-place/out=, ((2,),(2,2)) call/operator, ((2,2),()) "
                 "call/in-place/at/reduce, ((2,2),(2,2)) call; for the comparison and min/max keys (whose NumPy loops branch per element "
-                "pair) the (2,2) shapes are run with quantity kinds on both sides only",
+                "pair) the (2,2) shapes are run with quantity kinds on both sides only; the 23 further sequence kinds with all 18 keys "
+                "(right operand: all forms on ((),seq) and call/operator/in-place/out= on ((2,),seq); left operand: call and operator "
+                "form) and with dimensionless / scaled-dimensionless / bare-array first operands of the array functions",
 }
 OUTSIDE = ("IEEE rounding/overflow/nan (A1): a path on which NumPy's loop divides by zero is dropped; integer/complex payloads and the "
            "integer-only ufuncs (bitwise_*, shifts, ldexp); power/logaddexp/logaddexp2/logical_xor are classified (no demand) but not "
@@ -82,7 +97,12 @@ OUTSIDE = ("IEEE rounding/overflow/nan (A1): a path on which NumPy's loop divide
            "as the VALUE argument of an assignment-like call (__setitem__, fill_diagonal, insert, place, put, putmask, put_along_axis, "
            "copyto, clip limits, searchsorted needle, select default) a bare number/sequence has no dimension of its own and is read in "
            "the receiving array's unit (NumPy assignment semantics, documented in _validate_units_consistency_v2): only operands that "
-           "carry units are compared there. The shape of the ==/!= constant answer is not checked here (C06/C16).")
+           "carry units are compared there - the same reading is applied to the bare members of a sequence that also holds quantities; "
+           "in a ufunc the zero exception is extended to such bare members (unyt refuses these sequences in every ufunc anyway). "
+           "Sequences: more than three members, nesting deeper than one level, generators / other iterables, object-dtype ndarrays "
+           "holding quantities (unyt refuses dtype O, the shimmed library cannot), numpy scalars as bare members (a symbol cannot live "
+           "in a np.float64); unyt_array(seq, <unit>) relabels by design and is not judged. "
+           "The shape of the ==/!= constant answer is not checked here (C06/C16).")
 
 NAMES = ["xa", "xb", "xc", "xp", "xt"]
 
@@ -122,9 +142,46 @@ INPLACE = {"add": operator.iadd, "subtract": operator.isub, "remainder": operato
 TWIN_KINDS = ["twin_dim", "twin_scale", "redim_old", "redim_new"]
 QUANTITY_KINDS = ["same", "samedim", "diffdim", "dimless", "percent"] + TWIN_KINDS
 BARE_KINDS = ["bscalar", "barray", "blist"]
-QLIST_KINDS = ["qlist_same", "qlist_diff", "qlist_mixed"]
-KINDS = QUANTITY_KINDS + BARE_KINDS + QLIST_KINDS
+QLIST_CORE = ["qlist_same", "qlist_diff", "qlist_mixed"]
+KINDS = QUANTITY_KINDS + BARE_KINDS + QLIST_CORE  # the kinds that are paired with each other in the full matrix
+# Sequences that carry units: kind -> (container, nested, members). Member codes: b = bare number; A / C = unyt_quantity in xa /
+# xc (xc is the other dimension); a / c = a 0-d unyt_ARRAY (not a unyt_quantity) in xa / xc. The three core kinds are paired with
+# every other kind; the rest (heterogeneous sequences with a bare number in front of / behind the quantities, tuples, members that
+# are 0-d arrays, three members with the odd one at each position, one level of nesting) are paired with the quantity kinds that
+# matter for them (same / other dimension / dimensionless target), see cases().
+SEQ = {
+    "qlist_same": (list, False, "AA"), "qlist_diff": (list, False, "CC"), "qlist_mixed": (list, False, "AC"),
+    # a bare number and a quantity in one sequence (xa and xc trade places through the other operand: same / diffdim)
+    "qlist_bC": (list, False, "bC"), "qlist_Cb": (list, False, "Cb"),
+    # tuples
+    "qlist_tup_same": (tuple, False, "AA"), "qlist_tup_diff": (tuple, False, "CC"), "qlist_tup_mixed": (tuple, False, "AC"),
+    "qlist_tup_bC": (tuple, False, "bC"), "qlist_tup_Cb": (tuple, False, "Cb"),
+    # members are 0-d unyt_array objects
+    "qlist_arr_diff": (list, False, "cc"), "qlist_arr_mixed": (list, False, "ac"), "qlist_arr_bC": (list, False, "bc"),
+    "qlist_arr_Cb": (list, False, "cb"),
+    # three members: the foreign quantity first / in the middle / last, bare numbers in front
+    "qlist_3AAC": (list, False, "AAC"), "qlist_3ACA": (list, False, "ACA"), "qlist_3CAA": (list, False, "CAA"),
+    "qlist_3bAC": (list, False, "bAC"), "qlist_3bbC": (list, False, "bbC"), "qlist_3bCb": (list, False, "bCb"),
+    "qlist_3tup_bbC": (tuple, False, "bbC"),
+    # one level of nesting: [[q, q]], shape (1, 2)
+    "qlist_nest_same": (list, True, "AA"), "qlist_nest_diff": (list, True, "CC"), "qlist_nest_mixed": (list, True, "AC"),
+    "qlist_nest_bC": (list, True, "bC"), "qlist_nest_tup_mixed": (tuple, True, "AC"),
+}
+QLIST_KINDS = list(SEQ)
+SEQ_NEW = [k for k in SEQ if k not in QLIST_CORE]
+SEQ3 = [k for k in SEQ if len(SEQ[k][2]) == 3]
+SEQ_NEST = [k for k in SEQ if SEQ[k][1]]
+SEQ2 = [k for k in SEQ_NEW if k not in SEQ3 and k not in SEQ_NEST]
 LISTS = ["blist"] + QLIST_KINDS
+# sequences unyt's coercion accepts when the members are commensurable (all others hold a bare number next to a quantity of a
+# non-trivial unit, or two dimensions: the coercion refuses them before the ufunc's own rule is consulted)
+SEQ_COERCIBLE = ["qlist_tup_same", "qlist_tup_diff", "qlist_arr_diff"] + SEQ_NEST
+SEQ_QUICK_COERCIBLE = ["qlist_tup_diff", "qlist_arr_diff", "qlist_nest_mixed", "qlist_nest_bC"]
+
+
+def seq_shape(kind):
+    _, nested, members = SEQ[kind]
+    return (1, len(members)) if nested else (len(members),)
 
 
 def twin_ok(k0, k1):
@@ -150,6 +207,9 @@ L_SETL = "__setitem__ stores a list of quantities ignoring their units"
 L_COPYTO = "copyto without mask returns for incommensurable operands (dst relabelled)"
 L_COPYLIST = "copyto stores a list of quantities ignoring their units"
 L_METHOD = "ndarray method not overridden by unyt combines incommensurable operands"
+L_SETNEST = "__setitem__ stores a nested sequence of quantities ignoring their units"
+L_CTOR = "unyt_array(sequence) drops the units of the quantities in it"
+L_NEST = "a nested sequence of quantities is read as bare numbers by a binary ufunc"
 
 
 def binary_keys(mods):
@@ -178,16 +238,37 @@ def _ufacts(o):
     return (str(u), u.dimensions, u.base_value, u.base_offset)
 
 
+def _members(seq):
+    """the member objects of a (possibly nested) python sequence, depth first"""
+    out = []
+    for m in seq:
+        if isinstance(m, (list, tuple)):
+            out.append(m)
+            out += _members(m)
+        else:
+            out.append(m)
+    return out
+
+
 class Opd:
     """one operand: the python value handed to the operation + the oracle's view of it"""
 
-    def __init__(self, kind, value, dim, elems, parts, bare, shape=None):
+    def __init__(self, kind, value, dim, elems, parts, bare, shape=None, adim=None, bare_members=()):
         self.kind, self.value, self.dim, self.elems, self.parts, self.bare, self.shape = kind, value, dim, elems, parts, bare, shape
+        # adim: the dimension of the members that CARRY units (what counts where a bare number is read in the receiving array's
+        # unit); dim: the dimension when a bare member counts as dimensionless. They differ for heterogeneous sequences only.
+        self.adim = dim if adim is None else adim
+        self.bare_members = list(bare_members)  # element terms of the bare members of a sequence that also holds quantities
         # parts: the array objects whose content must survive a raising call
         self.snap = [(o, list(elements(_data(o))), _ufacts(o)) for o in parts]
+        # a python sequence handed to the call must still hold the same member objects afterwards
+        self.seq_snap = _members(value) if isinstance(value, (list, tuple)) else None
 
     def unchanged(self):
         cs = []
+        if self.seq_snap is not None:
+            now = _members(self.value)
+            cs.append(len(now) == len(self.seq_snap) and all(x is y for x, y in zip(now, self.seq_snap)))
         for o, before, uf in self.snap:
             cs.append(all_exact(elements(_data(o)), before))
             now = _ufacts(o)
@@ -279,13 +360,32 @@ class World:
             shape = shape if shape else (2,)
             v = self.vals(tag, shape)
             return Opd(kind, v.tolist(), "dimensionless", elements(v), [], True, shape)
-        if kind in QLIST_KINDS:
-            us = {"qlist_same": ("xa", "xa"), "qlist_diff": ("xc", "xc"), "qlist_mixed": ("xa", "xc")}[kind]
-            qs = [ctx.quantity(ctx.real(f"{tag}_{i}"), u, reg) for i, u in enumerate(us)]
-            dim = {"qlist_same": self.n0, "qlist_diff": self.n1, "qlist_mixed": "MIXED"}[kind]
-            if dim == "MIXED" and self.n0 == self.n1:
-                dim = self.n0
-            return Opd(kind, list(qs), dim, [e for q in qs for e in elements(q.d)], qs, False, (2,))
+        if kind in SEQ:
+            cont, nested, members = SEQ[kind]
+            ua = ctx.mods["unyt"].unyt_array
+            vals, qs, elems, bares, qdims = [], [], [], [], set()
+            for i, m in enumerate(members):
+                v = ctx.real(f"{tag}_{i}")
+                if m == "b":
+                    vals.append(v)
+                    elems.append(v)
+                    bares.append(v)
+                    continue
+                unit = "xa" if m in "Aa" else "xc"
+                # lower case: a 0-d unyt_array (what a[()] of a 0-d array, np.sum(keepdims) ... hand out), not a unyt_quantity
+                q = ua(obj0(v) if ctx.symbolic else v, unit, registry=reg) if m.islower() else ctx.quantity(v, unit, reg)
+                if m.islower() and (type(q) is not ua or q.shape != ()):
+                    raise HarnessError("0-d unyt_array member expected")
+                vals.append(q)
+                qs.append(q)
+                elems += elements(q.d)
+                qdims.add(self.n0 if m in "Aa" else self.n1)
+            adim = qdims.pop() if len(qdims) == 1 else "MIXED"
+            dim = "MIXED" if (bares and adim != "dimensionless") else adim
+            value = cont(vals)
+            if nested:
+                value = cont([value])
+            return Opd(kind, value, dim, elems, qs, False, seq_shape(kind), adim=adim, bare_members=bares)
         raise KeyError(kind)
 
     # known-defect obligations are collected per case and required once at the end (one counterexample per case and class)
@@ -302,7 +402,7 @@ def shape_of(kind, shape):
     if kind == "bscalar":
         return ()
     if kind in QLIST_KINDS:
-        return (2,)
+        return seq_shape(kind)
     if kind == "blist":
         return shape if shape else (2,)
     return shape
@@ -314,9 +414,17 @@ def is_unyt(ctx, v):
 
 # ------------------------------------------------------------------------------------------------ verdicts
 
-def commensurable(ops):
-    dims = [o.dim for o in ops]
+def commensurable(ops, assign=False):
+    dims = [(o.adim if assign else o.dim) for o in ops]
     return "MIXED" not in dims and all(d == dims[0] for d in dims)
+
+
+def no_demand(ops, klass):
+    """the operands the call combines are of one dimension. klass 'assign': bare values (a bare operand, the bare members of a
+    sequence that also holds quantities) are read in the receiving array's unit - only what carries units is compared"""
+    if klass == "assign":
+        return commensurable([o for o in ops if not o.bare], assign=True)
+    return commensurable(ops)
 
 
 def _truth(e):
@@ -395,13 +503,12 @@ def judge(ctx, W, tag, opname, res, ops, klass, known=None, outer=False, outs=()
     if val is DOMAIN:
         return  # the path left the reals inside NumPy's loop: whether unyt would then return or raise is not modelled (A1)
     ctx.observe(tag, "ok" if status == "ok" else type(val).__name__)
-    info = dict(dims=[o.dim for o in ops], kinds=[o.kind for o in ops])
+    info = dict(dims=[(o.adim if klass == "assign" else o.dim) for o in ops], kinds=[o.kind for o in ops])
     if status == "ok":
         if klass == "free":
             ctx.require(f"{tag}: returned (no commensurability demand)", True)
             return
-        cmp_ops = [o for o in ops if not (klass == "assign" and o.bare)]
-        if commensurable(cmp_ops):
+        if no_demand(ops, klass):
             ctx.require(f"{tag}: returned for commensurable operands", True)
             return
         exc, weak = [], None
@@ -410,6 +517,11 @@ def judge(ctx, W, tag, opname, res, ops, klass, known=None, outer=False, outs=()
             exc.append(is_constant(val, opname == "not_equal"))
         if klass == "require":
             exc += [o.all_zero() for o in ops if o.bare]
+            het = [o for o in ops if o.bare_members]
+            if het and commensurable(ops, assign=True):
+                # lenient reading for a sequence holding bare numbers and quantities: the zero exception covers its bare members
+                # (unyt refuses such sequences in every ufunc anyway)
+                exc.append(And(*[exact_eq(e, 0) for o in het for e in o.bare_members]))
         if opname in ORDERING and any(o.dim == "dimensionless" for o in ops):
             exc.append(True)
         strict = Or(*exc) if exc else False
@@ -417,6 +529,17 @@ def judge(ctx, W, tag, opname, res, ops, klass, known=None, outer=False, outs=()
             # known defect: == and != treat a dimensionless operand like the ordering comparisons do and compare the bare numbers
             known = L_EQD
             weak = Or(strict, raw_equality(val, ops[0], ops[1], opname == "not_equal", outer))
+        elif known is None and klass == "require" and any(o.kind in SEQ_NEST for o in ops):
+            # known defect: _coerce_iterable_units looks for quantities at the top level of a sequence only; a nested sequence is
+            # handed to np.asarray, which strips the units. Must hold even so: the call behaves as for the bare numbers (zero
+            # exemption, ordering against anything, any key next to a dimensionless operand, ==/!= on the raw numbers - the
+            # L_EQD defect) or as the property demands
+            known = L_NEST
+            nest = [o for o in ops if o.kind in SEQ_NEST]
+            weak = Or(strict, opname in ORDERING, all(o.dim == "dimensionless" for o in ops if o not in nest),
+                      *[o.all_zero() for o in nest])
+            if opname in EQNE:
+                weak = Or(weak, raw_equality(val, ops[0], ops[1], opname == "not_equal", outer))
         elif known is None and klass == "require" and any(o.kind in QLIST_KINDS for o in ops):
             # known defect: the zero exemption looks at isinstance(operand, unyt_array) only, so it is also granted to an
             # all-zero python list of quantities, which carries units (the all-zero unyt_array case was repaired by 37ae695)
@@ -433,7 +556,7 @@ def judge(ctx, W, tag, opname, res, ops, klass, known=None, outer=False, outs=()
             raise HarnessError(f"{tag}: engine artefact, not unyt raising: {val}")
         ctx.require(f"{tag}: operands unchanged after raise", And(*[o.unchanged() for o in ops]), exc=type(val).__name__,
                     to_solver=True, **info)
-        if outs and klass != "free" and not commensurable([o for o in ops if not (klass == "assign" and o.bare)]):
+        if outs and klass != "free" and not no_demand(ops, klass):
             # the raise the property demands must not have been preceded by writing the combined values into out=
             cond = And(*[o.unchanged() for o in outs])
             if known == L_DIVMOD:
@@ -713,12 +836,30 @@ AF_K0 = QUANTITY_KINDS + ["barray"]
 AF_K1 = KINDS
 
 
+# call shapes whose second operand may have any length / may be a (1, 2) row next to a (2,) first operand
+AF_ANYLEN = ["concatenate", "concatenate3", "hstack", "intersect1d", "union1d", "setdiff1d", "isin", "searchsorted", "insert", "place",
+             "put", "putmask"]
+AF_ROW = ["vstack", "where", "clip", "isin", "union1d", "searchsorted", "place", "put", "putmask"]
+
+
+def af_shapes(fname, k1):
+    """the shape pairs on which a call shape is run with second operand kind k1"""
+    shapes = (AF_TARGET if fname in AF_TARGET else AF)[fname][2]
+    if k1 in SEQ3:
+        return [((2,), (3,))] if fname in AF_ANYLEN else []
+    if k1 in SEQ_NEST:
+        return [((2,), (1, 2))] if fname in AF_ROW else []
+    return shapes
+
+
 def af_applicable(fname, k0, k1, s1):
     if not (k0 in QUANTITY_KINDS or k1 in QUANTITY_KINDS) or not twin_ok(k0, k1):
         return False
     if k1 == "bscalar" and s1 != ():
         return False
-    if k1 in LISTS and s1 != (2,):
+    if k1 in QLIST_KINDS and s1 != seq_shape(k1):
+        return False
+    if k1 == "blist" and s1 != (2,):
         return False
     if fname in ("linspace", "geomspace") and k1 in LISTS:
         return False
@@ -755,7 +896,19 @@ SETITEM = {
     "mask": (lambda c, v: c.__setitem__(_mask(2), v), ()),
     "ellipsis": (lambda c, v: c.__setitem__(Ellipsis, v), (2,)),
     "slice_bcast": (lambda c, v: c.__setitem__(slice(None), v), ()),
+    # (value shape, target shape): index forms that take a sequence of values
+    "fancy": (lambda c, v: c.__setitem__([0, 1], v), (2,)),
+    "mask_all": (lambda c, v: c.__setitem__(np.array([True, True]), v), (2,)),
+    "slice_part": (lambda c, v: c.__setitem__(slice(0, 2), v), (2,), (3,)),
+    "fancy_part": (lambda c, v: c.__setitem__(np.array([0, 2]), v), (2,), (3,)),
+    "mask_part": (lambda c, v: c.__setitem__(np.array([True, False, True]), v), (2,), (3,)),
+    "slice3": (lambda c, v: c.__setitem__(slice(None), v), (3,), (3,)),
+    "ellipsis3": (lambda c, v: c.__setitem__(Ellipsis, v), (3,), (3,)),
+    "row": (lambda c, v: c.__setitem__(slice(0, 1), v), (1, 2), (2, 2)),
+    "rows_bcast": (lambda c, v: c.__setitem__(Ellipsis, v), (1, 2), (2, 2)),
+    "row_item": (lambda c, v: c.__setitem__(0, v), (2,), (2, 2)),
 }
+SETITEM_CORE = ["item", "slice", "mask", "ellipsis", "slice_bcast"]
 METHODS = {
     "fill": (lambda c, v: c.fill(v), ()),
     "put": (lambda c, v: c.put([0], v), ()),
@@ -766,17 +919,20 @@ METHODS = {
 def assign_applicable(k1, s1):
     if k1 == "bscalar" and s1 != ():
         return False
-    if k1 in LISTS and s1 != (2,):
+    if k1 in QLIST_KINDS:
+        return s1 == seq_shape(k1)
+    if k1 == "blist" and s1 == ():
         return False
     return True
 
 
 def make_assign_case(group, form, k0, k1, table, dims):
-    fn, s1 = table[form]
+    fn, s1 = table[form][:2]
+    s0 = table[form][2] if len(table[form]) > 2 else (2,)
 
     def h(ctx):
         W = World(ctx, *dims)
-        a = W.operand(k0, (2,), "p")
+        a = W.operand(k0, s0, "p")
         b = W.operand(k1, s1, "q")
         tgt = a.copy("target")
         tag = f"{group}.{form}({k0},{k1})"
@@ -784,6 +940,8 @@ def make_assign_case(group, form, k0, k1, table, dims):
         if group == "setitem":
             if b.dim == "dimensionless" and not b.bare:  # (a list of quantities is validated since 24f44a2)
                 known = L_SETD
+            elif k1 in SEQ_NEST:  # ... but only its top level is looked at
+                known = L_SETNEST
         else:
             known = L_METHOD
         res = xcall(fn, tgt.value, b.value)
@@ -796,6 +954,28 @@ def make_assign_case(group, form, k0, k1, table, dims):
         judge(ctx, W, tag, group, res, [tgt, b], "assign", known)
         W.flush()
     return Case(f"C01/{group}/{form}/{k0}+{k1}", h, bounds="symbolic: elements, scales", budget_s=3000, max_paths=6000, weight=3)
+
+
+CTOR = {
+    "array": lambda ua, v, reg: ua(v),
+    "array_reg": lambda ua, v, reg: ua(v, registry=reg),
+}
+
+
+def make_ctor_case(form, k1, dims):
+    """unyt_array(sequence) without a unit argument merges the members into one array labelled with ONE unit: the members
+    (a bare member is a dimensionless one) must be commensurable or the call must raise and leave every member as it was"""
+    def h(ctx):
+        W = World(ctx, *dims)
+        b = W.operand(k1, seq_shape(k1) if k1 in SEQ else (2,), "q")
+        members = SEQ[k1][2] if k1 in SEQ else "bb"
+        # known defect: the constructor decides by the FIRST member whether the sequence carries units (and never looks inside
+        # a nested one); any other sequence goes to np.asarray, which strips the units
+        known = L_CTOR if (k1 in SEQ and (members[0] == "b" or SEQ[k1][1])) else None
+        res = xcall(CTOR[form], ctx.mods["unyt"].unyt_array, b.value, W.reg)
+        judge(ctx, W, f"ctor.{form}({k1})", "ctor", res, [b], "merge", known)
+        W.flush()
+    return Case(f"C01/ctor/{form}/{k1}", h, bounds="symbolic: elements, scales", budget_s=600, weight=2)
 
 
 CONVERT = {
@@ -953,6 +1133,25 @@ def cases(tier, mods):
                     if (s0, s1) == ((2,), (2,)) and name in FORKING:
                         forms = [f for f in forms if f != "outer"]  # 4 element pairs x 3 outcomes each on top of the zero scan
                     out.append(make_ufunc_case(name, k0, k1, s0, s1, *dims, forms=forms))
+            # the further unit-carrying sequences next to a quantity: the coercion of a sequence operand is one step shared by all
+            # keys, so the quick tier runs one key per family; left position in the thorough tier
+            if not quick or name in QUICK_SHAPED:
+                for kq, ks in itertools.product(("same", "diffdim") if quick else ("same", "diffdim", "dimless"), SEQ_NEW):
+                    shp = seq_shape(ks)
+                    if quick and ks in SEQ_COERCIBLE:
+                        # these are coerced like the core list kinds (whose full matrix is run): two keys, call / operator form
+                        if name in ("add", "less", "equal") and ks in SEQ_QUICK_COERCIBLE:
+                            out.append(make_ufunc_case(name, kq, ks, (), shp, *dims, forms=["call", "op"]))
+                        continue
+                    run = [((), shp, FORMS)]
+                    if ks in SEQ2 and not quick:
+                        run.append(((2,), shp, ["call", "op", "iop", "out_q"]))
+                    elif ks in SEQ2 and name in ("add", "less", "equal", "maximum"):
+                        run.append(((2,), shp, ["call", "iop"]))
+                    for s0, s1, forms in run:
+                        out.append(make_ufunc_case(name, kq, ks, s0, s1, *dims, forms=forms))
+                    if not quick and kq != "dimless":
+                        out.append(make_ufunc_case(name, ks, kq, shp, (), *dims, forms=["call", "op"]))
             out.append(make_dims_case(name, cat, False))
             out.append(make_dims_case(name, cat, True))
             out.append(make_dims_twin_case(name, cat))
@@ -969,14 +1168,26 @@ def cases(tier, mods):
                 for k1 in AF_K1:
                     if af_applicable(fname, k0, k1, shp[1]):
                         out.append(make_af_case(fname, k0, k1, shp, dims))
+        # the further unit-carrying sequences (heterogeneous, tuples, 0-d array members, three members, nested) as second operand
+        for k1 in SEQ_NEW:
+            for k0 in (("same", "diffdim") if quick else ("same", "diffdim", "dimless", "percent", "barray")):
+                for shp in af_shapes(fname, k1):
+                    if af_applicable(fname, k0, k1, shp[1]):
+                        out.append(make_af_case(fname, k0, k1, shp, dims))
     for form in SETITEM:
-        for k0, k1 in itertools.product(QUANTITY_KINDS, KINDS):
+        for k0, k1 in itertools.product(QUANTITY_KINDS if form in SETITEM_CORE else ("same", "diffdim", "dimless", "percent"), KINDS):
             if assign_applicable(k1, SETITEM[form][1]) and twin_ok(k0, k1):
+                out.append(make_assign_case("setitem", form, k0, k1, SETITEM, dims))
+        for k0, k1 in itertools.product(("same", "diffdim", "dimless", "percent"), SEQ_NEW):
+            if assign_applicable(k1, SETITEM[form][1]):
                 out.append(make_assign_case("setitem", form, k0, k1, SETITEM, dims))
     for form in METHODS:
         for k0, k1 in itertools.product(("same", "dimless"), KINDS):
             if assign_applicable(k1, METHODS[form][1]) and twin_ok(k0, k1):
                 out.append(make_assign_case("method", form, k0, k1, METHODS, dims))
+    for form in CTOR:
+        for k1 in ["blist"] + QLIST_KINDS:
+            out.append(make_ctor_case(form, k1, dims))
     for entry in CONVERT:
         for as_string in (True, False):
             out.append(make_convert_case(entry, cat, as_string))
